@@ -275,7 +275,10 @@ def derivation(draw, spec):
                 if not cand_v:
                     continue
                 v = draw(st.sampled_from(cand_v))
-                cands = [c for c in base_name_candidates(v, [n for n in names if n != v]) if c not in names]
+                # (the base operator's name for the variable stays declared in the derived operator: it must not be the
+                #  name of any other variable of the model, or in-node wiring by name would connect the leftover)
+                all_names = {x[0] for od2 in spec["ops"].values() for x in od2["vars"]}
+                cands = [c for c in base_name_candidates(v, [n for n in names if n != v]) if c not in names and c not in all_names]
                 if not cands:
                     continue
                 b = draw(st.sampled_from(cands))
@@ -377,7 +380,8 @@ def derived_docs(spec, plan):
             circuit_docs(spec, docs, top="net_base", nodes=spec["nodes"][:-1], edges=keep_e)
             doc = {"base": "net_base", "nodes": {last: spec["nodes"][-1][1]}}
             if add_e:
-                doc["edges"] = [[e["s"], e["t"], e.get("et") or None, dict({"weight": float(e["w"])}, **(e.get("ev") or {}))]
+                doc["edges"] = [[e["s"], e["t"], e.get("et") or None,
+                                 dict({"weight": float(e["w"])}, **(e.get("ev") or {}), **edge_source_attributes(spec, e))]
                                 for e in add_e]
             docs["net"] = doc
     return docs
